@@ -1067,7 +1067,7 @@ int main(int argc, char** argv) {
         } else if (op == 'E') {
           d.do_empty();
         } else if (op == 'S') {
-          d.do_scans(1000);
+          d.do_scans(16);
         } else if (op == 'N') {
           d.reset("replay");
         }
